@@ -22,7 +22,7 @@ ASSUMPTIONS = [
     "messages of min([]) / max([]) are CPython 3.12's",
     "isinstance(True, int) holds: bool successors/probabilities/rewards are accepted as the ints 0/1",
 ]
-HDR = ("From Coq Require Import String List ZArith QArith Bool.\n"
+HDR = ("From Coq Require Import String List ZArith Bool.\n"
        "From CR Require Import Model.Outcome Model.PyVal Model.Validate.\n"
        "Import ListNotations.\nLocal Open Scope string_scope.\nLocal Open Scope Z_scope.\n")
 NO_SOLUTION = "The game has no solution. The initial state has a reach probability of 0."
@@ -336,7 +336,7 @@ def run(ctx):
     for c in cases[1:4]:
         ctx.sample(dict(host=c["host"], mutation=repr(c["m"]), impl=c["rv"]))
     body = lambda l: ("Definition cases : list (desc * vout) := %s.\n"
-                      "Eval vm_compute in (vidx_where cases).") % l
+                      "Close Scope Z_scope.\nEval vm_compute in (vidx_where cases).") % l
     bad, errs = coqrun.eval_case_files("c09", HDR, coqrun.chunked(terms, 300), body)
     ctx.corr_cases += len(terms)
     for b in bad:
@@ -359,27 +359,21 @@ def run(ctx):
     bjobs = [dict(op="run_games", games=enc({"first": good, "bad": cases[k]["d"], "good": good}), limit=30) for k in sub]
     bres = impl.run_cases(bjobs, limit=30, tag="c09b")
     bterms, bmeta = [], []
-    k3 = [x for x in ctx.known_witnesses("known") if x.get("id") == "K3" or x.get("match") == K3_MATCH]
-    nk3 = 0
     for k, r in zip(sub, bres):
         c = cases[k]
         ctx.evaluations += 1
         ctx.count("run_games")
         inp = dict(game=enc(c["d"]), host=c["host"], mutation=repr(c["m"]), through="run_games")
-        check_batch(ctx, c, r, inp, k3)
-        if "ok" not in r and unsized(c["d"]) and r.get("exc") == "TypeError":
-            nk3 += 1
+        check_batch(ctx, c, r, inp)
+        if unsized(c["d"]):
+            ctx.count("run_games:transitions-value-without-len")
         try:
             bterms.append("(%s, %s)" % (cdesc(c["d"]), cbout(r)))
             bmeta.append(k)
         except NotRepresentable:
             ctx.count("not-emitted")
-    if nk3 and k3:
-        ctx.known_hits.append((k3[0].get("id"), "%s [%d run_games cases with a transitions value without len()]"
-                               % (k3[0].get("line", "run_games raises TypeError from count_transitions"), nk3)))
-    ctx.count("run_games:TypeError-from-count_transitions", nk3)
     bbody = lambda l: ("Definition cases : list (desc * bout) := %s.\n"
-                       "Eval vm_compute in (bidx_where cases).") % l
+                       "Close Scope Z_scope.\nEval vm_compute in (bidx_where cases).") % l
     bbad, errs2 = coqrun.eval_case_files("c09b", HDR, coqrun.chunked(bterms, 300), bbody)
     ctx.corr_cases += len(bterms)
     for b in bbad:
@@ -390,11 +384,9 @@ def run(ctx):
         ctx.harness_errors.append("coqc failed on %s: %s" % (e[0], e[2][-500:]))
 
 
-K3_MATCH = "run_games_unsized_transitions"
-
-
 def unsized(d):
-    """some transitions value has no len(): run_games' count_transitions raises TypeError before the try"""
+    """some transitions value has no len(): count_transitions raises TypeError (caught by run_games since the
+    fix: commit bb189d4, which records n_transitions = 0; before it the TypeError left run_games)"""
     return any(not isinstance(t, (list, tuple, str)) for t in d["transition_list"])
 
 
@@ -402,14 +394,12 @@ def cbout(r):
     if "ok" not in r:
         return "(BExc %s)" % cstr(r.get("exc") or "timeout")
     ents = dict((nm, e) for nm, e in dec(r["ok"]))
-    return "(BMsgs %s %s)" % (cstr(ents["bad"]["msg"]), cstr(ents["bad_no_prune"]["msg"]))
+    return "(BMsgs %d %s %s)" % (ents["bad"]["n_transitions"], cstr(ents["bad"]["msg"]), cstr(ents["bad_no_prune"]["msg"]))
 
 
-def check_batch(ctx, c, r, inp, k3):
+def check_batch(ctx, c, r, inp):
     """the batch clause of the property on one run_games outcome {first: good, bad: malformed, good: good}"""
     if "ok" not in r:
-        if unsized(c["d"]) and r.get("exc") == "TypeError" and k3:
-            return                                   # the known finding K3 (reported once by the caller)
         ctx.violation("run_games did not record a message for a malformed game but raised %s(%s)"
                       % (r.get("exc") or "timeout", r.get("msg")), inp, impl=r)
         return
@@ -450,6 +440,6 @@ def replay(ctx, data):
     ok = all(r.get("exc") == "ValueError" for r in rs[:3])
     if v.get("through") == "run_games" or unsized(d):
         c = dict(d=d, rv=rs[0], rule="replay", host="replay", m=None)
-        check_batch(ctx, c, rb, dict(game=g), [])
+        check_batch(ctx, c, rb, dict(game=g))
         ok = ok and not ctx.violations
     return 0 if ok else 1
